@@ -50,8 +50,15 @@ void abort(void)
  * assumed contract of a libc dependency (listed in every evidence file). */
 void * malloc(size_t);
 void free(void *);
-size_t vf_keep_off, vf_keep_len;
+size_t vf_keep_off, vf_keep_len;     /* ghost window 1 (byte offset within the object, length) */
+size_t vf_keep_off2, vf_keep_len2;   /* ghost window 2 */
 #define VF_KEEP_MAX 64
+#ifndef VF_KEEP_UNIT
+#define VF_KEEP_UNIT 1
+#endif
+#define VF_KEEP_STRUCT_(n) struct vf_keep##n
+#define VF_KEEP_STRUCT__(n) VF_KEEP_STRUCT_(n)
+#define VF_KEEP_STRUCT VF_KEEP_STRUCT__(VF_KEEP_UNIT)
 #define VF_KEEP_T(N) struct vf_keep##N { char b[N]; }
 VF_KEEP_T(1); VF_KEEP_T(2); VF_KEEP_T(3); VF_KEEP_T(4); VF_KEEP_T(8); VF_KEEP_T(12); VF_KEEP_T(16); VF_KEEP_T(24); VF_KEEP_T(32); VF_KEEP_T(64);
 void * realloc(void * ptr, size_t size)
@@ -67,21 +74,56 @@ void * realloc(void * ptr, size_t size)
     res = malloc(size);
     if (res != NULL) {
         const size_t old = __CPROVER_OBJECT_SIZE(ptr);
-        if (vf_keep_off <= (SIZE_MAX >> 8) && vf_keep_len <= VF_KEEP_MAX &&
-            vf_keep_off + vf_keep_len <= old && vf_keep_off + vf_keep_len <= size) {
-            char * const d = res + vf_keep_off;
-            const char * const s = (const char *)ptr + vf_keep_off;
-#define VF_KEEP_CASE(N) case N: *(struct vf_keep##N *)d = *(const struct vf_keep##N *)s; break
-            switch (vf_keep_len) {
-                VF_KEEP_CASE(1); VF_KEEP_CASE(2); VF_KEEP_CASE(3); VF_KEEP_CASE(4); VF_KEEP_CASE(8);
-                VF_KEEP_CASE(12); VF_KEEP_CASE(16); VF_KEEP_CASE(24); VF_KEEP_CASE(32); VF_KEEP_CASE(64);
-            default: break;
-            }
+        /* VF_KEEP_UNIT (set by the spec TU) is the window length in bytes */
+#define VF_KEEP_WINDOW(OFF, DST, SRC, LIM1, LIM2)                                                   \
+        if ((OFF) <= (SIZE_MAX >> 8) && (OFF) + VF_KEEP_UNIT <= (LIM1) && (OFF) + VF_KEEP_UNIT <= (LIM2)) { \
+            *(VF_KEEP_STRUCT *)((char *)(DST) + (OFF)) = *(const VF_KEEP_STRUCT *)((const char *)(SRC) + (OFF)); \
         }
+        if (vf_keep_len == VF_KEEP_UNIT) {
+            VF_KEEP_WINDOW(vf_keep_off, res, ptr, old, size)
+        }
+#ifdef VF_KEEP_TWO
+        if (vf_keep_len2 == VF_KEEP_UNIT) {
+            VF_KEEP_WINDOW(vf_keep_off2, res, ptr, old, size)
+        }
+#endif
         free(ptr);
     }
     return res;
 }
+
+#ifdef VF_MODEL_MEMCPY
+/* memcpy / memmove as contracts (assumed libc behaviour): both ranges must lie inside live
+ * objects (asserted for every length), the destination range is overwritten, and of the copied
+ * bytes those of the two ghost windows (given as byte offsets inside the SOURCE object) are
+ * tracked; the windows are arbitrary, so they stand for every byte. */
+static void * vf_copy_model(void * dst, const void * src, size_t n)
+{
+    __CPROVER_assert(n == 0 || __CPROVER_r_ok(src, n), "memcpy/memmove: source range inside a live object");
+    __CPROVER_assert(n == 0 || __CPROVER_w_ok(dst, n), "memcpy/memmove: destination range inside a live object");
+    if (n > 0) {
+        const size_t so = __CPROVER_POINTER_OFFSET(src);
+        struct vf_keep4 w1, w2;
+        char c1, c2;
+        const _Bool in1 = (vf_keep_len == 1 || vf_keep_len == 4) && vf_keep_off >= so && vf_keep_off - so <= n &&
+                          vf_keep_len <= n - (vf_keep_off - so);
+        const _Bool in2 = (vf_keep_len2 == 1 || vf_keep_len2 == 4) && vf_keep_off2 >= so && vf_keep_off2 - so <= n &&
+                          vf_keep_len2 <= n - (vf_keep_off2 - so);
+        const char * const s1 = (const char *)src + (vf_keep_off - so);
+        const char * const s2 = (const char *)src + (vf_keep_off2 - so);
+        if (in1) { if (vf_keep_len == 1) { c1 = *s1; } else { w1 = *(const struct vf_keep4 *)s1; } }
+        if (in2) { if (vf_keep_len2 == 1) { c2 = *s2; } else { w2 = *(const struct vf_keep4 *)s2; } }
+        __CPROVER_havoc_slice(dst, n);
+        if (in1) { char * const d1 = (char *)dst + (vf_keep_off - so);
+                   if (vf_keep_len == 1) { *d1 = c1; } else { *(struct vf_keep4 *)d1 = w1; } }
+        if (in2) { char * const d2 = (char *)dst + (vf_keep_off2 - so);
+                   if (vf_keep_len2 == 1) { *d2 = c2; } else { *(struct vf_keep4 *)d2 = w2; } }
+    }
+    return dst;
+}
+void * memcpy(void * dst, const void * src, size_t n) { return vf_copy_model(dst, src, n); }
+void * memmove(void * dst, const void * src, size_t n) { return vf_copy_model(dst, src, n); }
+#endif
 
 /* named nondeterministic inputs; the assignment makes the value visible in the trace */
 size_t nondet_size_t(void);
